@@ -111,12 +111,16 @@ func c15Run(c *mon.Ctx) {
 				return
 			}
 			if math.Float64bits(dab) != math.Float64bits(dba) {
-				c.Violation("distance-asymmetric", "DistanceTo is not symmetric", mk("DistanceTo", "", dab, dba))
+				// symmetric within the tolerance of the statement; a difference in the last bits is counted, not judged
+				c.Count("distance_pairs_not_bit_symmetric")
+				if math.Abs(dab-dba) > tolD(ref) {
+					c.Violation("distance-asymmetric", "DistanceTo is not symmetric", mk("DistanceTo", "", dab, dba))
+				}
 			}
-			if dab < 0 || dab > piR*(1+1e-15) {
+			if dab < 0 || dab > piR+1e-3 {
 				c.Violation("distance-range", "DistanceTo outside [0, pi R]", mk("DistanceTo", "", dab))
 			}
-			if la == lb && lo == lp && dab != 0 {
+			if la == lb && lo == lp && math.Abs(dab) > 1e-3 {
 				c.Violation("distance-identical", "DistanceTo of identical locations is not zero", mk("DistanceTo", "", dab))
 			}
 			// agreement with the reference; near the antipode the haversine is
@@ -324,7 +328,7 @@ func c15Replay(kind string, raw json.RawMessage) (bool, string) {
 	case len(a) == 4:
 		d1, d2 := geo.DistanceTo(a[0], a[1], a[2], a[3]), geo.DistanceTo(a[2], a[3], a[0], a[1])
 		ref := sphere.Dist(a[0], a[1], a[2], a[3])
-		bad := math.IsNaN(d1) || d1 != d2 || d1 < 0 || d1 > piR*(1+1e-15)
+		bad := math.IsNaN(d1) || math.Abs(d1-d2) > tolD(ref) || d1 < 0 || d1 > piR+1e-3 || math.Abs(d1-ref) > math.Max(tolD(ref), 0.3)
 		return bad, fmt.Sprintf("DistanceTo=%v / %v reference %v", d1, d2, ref)
 	case len(a) == 1:
 		h := geo.DistanceToHaversine(a[0])
